@@ -482,6 +482,22 @@ func (txmp *TxMempool) addNewTransaction(wtx *WrappedTx, checkTxRes *abci.Respon
 	priority := checkTxRes.Priority
 	sender := checkTxRes.Sender
 
+	// The cache is bounded independently of the pool, so a transaction that is
+	// still in the mempool may have been evicted from the cache and reach this
+	// point a second time. Record the peers that sent it and do not insert it
+	// again.
+	if elt, ok := txmp.txByKey[wtx.tx.Key()]; ok {
+		w := elt.Value.(*WrappedTx)
+		for id := range wtx.peers {
+			w.SetPeer(id)
+		}
+		txmp.logger.Debug(
+			"transaction already in the mempool, not adding it again",
+			"tx", fmt.Sprintf("%X", wtx.tx.Hash()),
+		)
+		return
+	}
+
 	// Disallow multiple concurrent transactions from the same sender assigned
 	// by the ABCI application. As a special case, an empty sender is not
 	// restricted.
